@@ -150,3 +150,99 @@ theorem locatorHeightsAux_desc : ∀ (f h step cnt : Nat), 1 ≤ step →
       omega
 
 end BV.C17.Lemmas
+
+namespace BV.C17.Lemmas
+open BV.C17
+
+/-! ### length bound of the locator -/
+
+theorem log2_half (x : Nat) (hx : 2 ≤ x) : Nat.log2 x = Nat.log2 (x / 2) + 1 := by
+  rw [Nat.log2_def x]; simp [hx]
+
+/-- doubling phase: at most `2 + log2 ⌈h/s⌉` entries remain -/
+theorem locatorLen_doubling : ∀ (f h s cnt : Nat), 10 ≤ cnt → 1 ≤ s → h + 1 ≤ f →
+    (Spec.locatorHeightsAux f h s cnt).length ≤ 2 + Nat.log2 ((h + s - 1) / s)
+  | 0, _, _, _, _, _, hf => by omega
+  | f+1, h, s, cnt, hc, hs, hf => by
+    unfold Spec.locatorHeightsAux
+    by_cases h0 : h = 0
+    · simp [h0]; omega
+    · simp only [h0, if_false, List.length_cons]
+      have hcnt : cnt + 1 > 10 := by omega
+      simp only [hcnt, if_true]
+      by_cases hle : h ≤ s
+      · have : h - s = 0 := by omega
+        rw [this]
+        cases f with
+        | zero => omega
+        | succ f => simp [Spec.locatorHeightsAux]
+      · have ih := locatorLen_doubling f (h - s) (s * 2) (cnt + 1) (by omega) (by omega) (by omega)
+        have e1 : (h - s + s * 2 - 1) / (s * 2) = (h + s - 1) / s / 2 := by
+          rw [Nat.div_div_eq_div_mul]; congr 1; omega
+        rw [e1] at ih
+        have hx : 2 ≤ (h + s - 1) / s := by
+          rw [Nat.le_div_iff_mul_le (by omega)]; omega
+        rw [log2_half _ hx]; omega
+
+/-- single-step phase (`r = 11 - cnt` single steps left) followed by the doubling phase -/
+theorem locatorLen_singles : ∀ (r f h cnt : Nat), 1 ≤ r → r + cnt = 11 → h + 1 ≤ f →
+    (Spec.locatorHeightsAux f h 1 cnt).length ≤
+      if h ≤ r then h + 1 else r + 2 + Nat.log2 ((h - r + 1) / 2)
+  | 0, _, _, _, hr, _, _ => by omega
+  | r+1, f, h, cnt, _, hrc, hf => by
+    obtain ⟨f', rfl⟩ : ∃ f', f = f' + 1 := ⟨f - 1, by omega⟩
+    unfold Spec.locatorHeightsAux
+    by_cases h0 : h = 0
+    · simp [h0]
+    · simp only [h0, if_false, List.length_cons]
+      by_cases hr0 : r = 0
+      · -- last single step: cnt = 10, the step doubles after this entry
+        subst hr0
+        have hcnt : cnt + 1 > 10 := by omega
+        simp only [hcnt, if_true]
+        simp only [Nat.one_mul]
+        have ih := locatorLen_doubling f' (h - 1) 2 (cnt + 1) (by omega) (by omega) (by omega)
+        by_cases h1 : h ≤ 0 + 1
+        · have : h - 1 = 0 := by omega
+          rw [this] at ih ⊢
+          simp only [h1, if_true]
+          cases f' with
+          | zero => omega
+          | succ f'' => simp [Spec.locatorHeightsAux]; omega
+        · simp only [h1, if_false]
+          have : (h - 1 + 2 - 1) / 2 = (h - (0 + 1) + 1) / 2 := by
+            have : h - 1 + 2 - 1 = h - (0 + 1) + 1 := by omega
+            rw [this]
+          rw [this] at ih; omega
+      · have hcnt : ¬ cnt + 1 > 10 := by omega
+        simp only [hcnt, if_false]
+        have ih := locatorLen_singles r f' (h - 1) (cnt + 1) (by omega) (by omega) (by omega)
+        by_cases h1 : h ≤ r + 1
+        · have : h - 1 ≤ r := by omega
+          simp only [h1, this, if_true] at ih ⊢; omega
+        · have : ¬ h - 1 ≤ r := by omega
+          simp only [h1, this, if_false] at ih ⊢
+          have e : h - 1 - r + 1 = h - (r + 1) + 1 := by omega
+          rw [e] at ih; omega
+
+/-- the locator never has more entries than the capacity `blockLocator` computes up front:
+    `height + 1` up to height 12, `12 + ⌊log2 (height − 10)⌋` above -/
+theorem locatorHeights_length_le (h : Nat) :
+    (Spec.locatorHeights h).length ≤ locatorMaxEntries h := by
+  unfold Spec.locatorHeights locatorMaxEntries
+  have := locatorLen_singles 11 (h + 1) h 0 (by omega) (by omega) (Nat.le_refl _)
+  by_cases h11 : h ≤ 11
+  · have h12 : h ≤ 12 := by omega
+    simp only [h11, if_true] at this; simp only [h12, if_true]; exact this
+  · simp only [h11, if_false] at this
+    by_cases h12 : h ≤ 12
+    · have : h = 12 := by omega
+      subst this
+      simp only [Nat.le_refl, if_true]
+      exact Nat.le_trans this (by decide)
+    · simp only [h12, if_false]
+      have e : (h - 11 + 1) / 2 = (h - 10) / 2 := by congr 1; omega
+      rw [e] at this
+      rw [log2_half (h - 10) (by omega)]; omega
+
+end BV.C17.Lemmas
